@@ -32,166 +32,255 @@ def _cov_pol(stmt):
     return None
 
 
+def _chain(e):
+    """nested subscripts over a base -> (base canon, [selector ast innermost first])"""
+    sels = []
+    while isinstance(e, ast.Subscript):
+        sels.append(e.slice)
+        e = e.value
+    return canon(A.strip_casts(e)), list(reversed(sels))
+
+
+def _sel_kind(sl):
+    """('row', idx expr) | ('col', idx expr) | ('other', expr)"""
+    if isinstance(sl, ast.Tuple) and len(sl.elts) == 2 and isinstance(sl.elts[0], ast.Slice) and sl.elts[0].lower is None and sl.elts[0].upper is None and sl.elts[0].step is None:
+        return "col", sl.elts[1]
+    if isinstance(sl, ast.Tuple):
+        return "other", sl
+    return "row", sl
+
+
+def _first_application(fn):
+    for k, s in enumerate(fn.body):
+        for x in A.walk_local(s):
+            if isinstance(x, ast.Assign) and len(x.targets) == 1 and dotted(x.targets[0]) in ARR and isinstance(x.value, ast.Subscript):
+                return k
+    return None
+
+
 def check_lock(ctx):
     R = "C15-LOCK"
-    ctx.rule(R, "RVData.__init__: each row selector (the finite mask under `clean`, the time argsort) is applied to all of _t_bmjd, rv, rv_err on axis 0 and to rv_err on "
-                "axis 1 under _has_cov, before the next selector is computed; the mask is the conjunction of isfinite of all three arrays; the sort key is the time array. "
-                "__getitem__ applies the same index to all three (rows and columns for covariances, as two successive selections).")
+    ctx.rule(R, "RVData.__init__, decided on the symbolic final state (forward substitution from the point where selection starts, initial arrays symbolic, helper methods "
+                "inlined): for every combination of `clean` and `_has_cov`, _t_bmjd, rv and rv_err are the SAME chain of row selections of their initial values "
+                "(rv_err additionally column-selected by each selector under _has_cov); under clean the first selector is the mask isfinite(t) & isfinite(rv) & "
+                "isfinite(rv_err) (reduced over one axis for covariances); the last selector is the argsort of the already-cleaned times; nothing else rewrites the arrays. "
+                "__getitem__ applies the same index to all three (rows then columns for covariances).")
     fn = ctx.prog.func(DT, "RVData.__init__", R)
-    apps = _applications(fn)
-    # selector definitions, in order
-    seldefs = [s for s in fn.body if False]
-    sels = []
-    for s in A.walk_local(fn):
-        if isinstance(s, ast.Assign) and len(s.targets) == 1 and isinstance(s.targets[0], ast.Name) and any(a[3] == s.targets[0].id for a in apps):
-            sels.append(s)
-    sels.sort(key=lambda s: s.lineno)
-    if len(sels) < 2:
-        ctx.violate(R, fn, "two row selectors (finite mask, time sort)", "found %d selector definitions: observations are no longer both cleaned and time-ordered" % len(sels), key="selectors")
-    kinds = {}
-    for i, sd in enumerate(sels):
-        name = sd.targets[0].id
-        nxt = sels[i + 1].lineno if i + 1 < len(sels) else 10 ** 9
-        mine = [a for a in apps if a[3] == name and sd.lineno < a[0].lineno < nxt]
-        v = sd.value
-        is_sort = (isinstance(v, ast.Call) and A.last_attr(v) == "argsort")
-        kind = "time sort" if is_sort else "finite mask"
-        kinds[kind] = (sd, mine)
-        if is_sort:
-            key = v.func.value if isinstance(v.func, ast.Attribute) and not (dotted(v.func.value) or "").startswith("np") else (v.args[0] if v.args else None)
-            ctx.check(R, sd, "sort key is the time array", key is not None and dotted(key) == "self._t_bmjd", "rows are ordered by `%s`, not by time" % (A.unparse(key) if key is not None else None), key="sort-key")
-            ctx.check(R, sd, "sorting is unconditional", not A.guards_of(sd), "the time sort only happens under %s" % [A.unparse(t) for t, _ in A.guards_of(sd)], key="sort-uncond")
+    k = _first_application(fn)
+    if k is None:
+        ctx.violate(R, fn, "rows are selected in lock-step", "no `self.X = self.X[selector]` statement: observations are neither cleaned nor time-ordered", key="selectors")
+        return
+    flow = A.Flow(fn, track_self=True, body=fn.body[k:])
+    fin = flow.final_env
+    cases = {}
+    for attr in ARR:
+        v = fin.get(attr)
+        if v is None:
+            ctx.violate(R, fn, "%s is selected" % attr, "%s is never re-selected: it falls out of step with the other arrays" % attr, key="missing:" + attr)
+            return
+        for terms, leaf in A.ifexp_terms(v):
+            key = frozenset(x for x in A.term_strings(terms) if x.lstrip("+-") in ("clean", "self._has_cov"))
+            cases.setdefault(attr, []).append((key, leaf))
+    # the finest case split is the union of all literals that any array distinguishes
+    def compatible(k1, k2):
+        return not any((("-" + x[1:]) if x[0] == "+" else ("+" + x[1:])) in k2 for x in k1)
+    fine = set()
+    for attr in ARR:
+        for key, _ in cases[attr]:
+            fine.add(key)
+    atoms = sorted({x[1:] for key in fine for x in key})
+    import itertools
+    full = [frozenset(("+" if b else "-") + a_ for a_, b in zip(atoms, bits)) for bits in itertools.product([True, False], repeat=len(atoms))] or [frozenset()]
+    n = 0
+    for key in sorted(full, key=sorted):
+        d = {attr: [leaf for k2, leaf in cases[attr] if compatible(k2, key)] for attr in ARR}
+        label = "case {%s}" % ", ".join(sorted(key))
+        clean = "+clean" in key
+        cov = "+self._has_cov" in key
+        n += 1
+        ch = {}
+        bad = None
+        for attr in ARR:
+            leaves = {canon(x) for x in d[attr]}
+            if len(leaves) != 1:
+                bad = "%s has %d different final values in this case" % (attr, len(leaves))
+                break
+            base, sels = _chain(d[attr][0])
+            if base != attr:
+                bad = "%s is built from `%s`, not from its own initial value" % (attr, base)
+                break
+            ch[attr] = [_sel_kind(x) for x in sels]
+        if bad:
+            ctx.violate(R, fn, label + ": arrays selected from their own initial values", bad, key="base:" + ",".join(sorted(key)))
+            continue
+        rows_t = [canon(x) for kd, x in ch["self._t_bmjd"]]
+        rows_rv = [canon(x) for kd, x in ch["self.rv"]]
+        oks = rows_t == rows_rv and all(kd == "row" for kd, x in ch["self._t_bmjd"] + ch["self.rv"])
+        ctx.check(R, fn, label + ": times and velocities pass through the same row selections", oks,
+                  "times are selected by %s but velocities by %s" % ([s_[:40] for s_ in rows_t], [s_[:40] for s_ in rows_rv]), key="t-rv:" + ",".join(sorted(key)))
+        err = ch["self.rv_err"]
+        err_rows = [canon(x) for kd, x in err if kd == "row"]
+        err_cols = [canon(x) for kd, x in err if kd == "col"]
+        if cov:
+            oke = err_rows == rows_t and err_cols == rows_t and not [1 for kd, x in err if kd == "other"]
+            why = "covariance rows selected by %s, columns by %s, times by %s" % ([s_[:30] for s_ in err_rows], [s_[:30] for s_ in err_cols], [s_[:30] for s_ in rows_t])
         else:
-            # mask: conjunction of isfinite over all three arrays (follow &= updates)
-            txt = [v]
-            for s in A.walk_local(fn):
-                if isinstance(s, ast.AugAssign) and isinstance(s.target, ast.Name) and s.target.id == name and isinstance(s.op, ast.BitAnd) and sd.lineno < s.lineno < nxt:
-                    txt.append(s.value)
-            fin = set()
-            for e in txt:
-                for c in ast.walk(e):
-                    if isinstance(c, ast.Call) and (A.call_name(c) or "").endswith("isfinite") and c.args and dotted(c.args[0]) in ARR:
-                        fin.add(dotted(c.args[0]))
-            ors = [e for e in txt for b in ast.walk(e) if isinstance(b, ast.BinOp) and isinstance(b.op, ast.BitOr)]
-            ctx.check(R, sd, "mask = isfinite(t) & isfinite(rv) & isfinite(rv_err)", fin == set(ARR) and not ors,
-                      "mask tests %s%s: observations with a non-finite %s survive cleaning" % (sorted(fin), " with |" if ors else "", sorted(set(ARR) - fin)), key="mask")
-            g = [canon(t) for t, pol in A.guards_of(sd) if pol]
-            ctx.check(R, sd, "cleaning only under clean=True", g == ["clean"], "mask is computed under %s" % g, key="mask-guard")
-            # covariance variant reduces over one axis only for the cov case
-        need = {("self._t_bmjd", 0, None), ("self.rv", 0, None), ("self.rv_err", 0, True), ("self.rv_err", 1, True), ("self.rv_err", 0, False)}
-        got = set()
-        for st, attr, axis, _ in mine:
-            pol = _cov_pol(st)
-            if attr != "self.rv_err":
-                got.add((attr, axis, None) if pol is None else (attr, axis, pol))
-            else:
-                got.add((attr, axis, pol))
-        missing = need - got
-        extra = got - need
-        ctx.check(R, sd, "%s applied to t, rv, rv_err (rows; rows+columns for covariances)" % kind, not missing and not extra,
-                  "%s is not applied in lock-step: missing %s, unexpected %s" % (kind, sorted(str(m) for m in missing), sorted(str(e) for e in extra)), key="lock:" + kind)
-        # for the covariance: row selection precedes column selection on the already row-selected matrix (order irrelevant), fine
-    ctx.floor(R, len(sels), 2)
-    # sort after clean
-    if "time sort" in kinds and "finite mask" in kinds:
-        ctx.check(R, kinds["time sort"][0], "sort computed after cleaning", kinds["time sort"][0].lineno > max([a[0].lineno for a in kinds["finite mask"][1]] or [0]),
-                  "the sort permutation is computed before the non-finite rows are dropped", key="order")
-    # nothing else rewrites the arrays after their initial conversion
-    others = []
-    first_sel = sels[0].lineno if sels else 0
-    for s in A.walk_local(fn):
-        if isinstance(s, (ast.Assign, ast.AugAssign)):
-            tg = s.targets[0] if isinstance(s, ast.Assign) else s.target
-            if dotted(tg) in ARR and s.lineno > first_sel and not any(s is a[0] for a in apps):
-                others.append(s)
-    ctx.check(R, fn, "no other rewrite of the arrays after selection starts", not others, "`%s` rewrites an array outside the lock-step selections" % (A.unparse(others[0])[:60] if others else ""), key="other-writes")
+            oke = err_rows == rows_t and not err_cols
+            why = "errors selected by %s (columns %s), times by %s" % ([s_[:30] for s_ in err_rows], [s_[:30] for s_ in err_cols], [s_[:30] for s_ in rows_t])
+        ctx.check(R, fn, label + ": errors pass through the same selections (rows%s)" % (" and columns" if cov else ""), oke, why, key="err:" + ",".join(sorted(key)))
+        # the selectors themselves
+        sels = [x for kd, x in ch["self._t_bmjd"]]
+        want_n = 2 if clean else 1
+        ctx.check(R, fn, label + ": %d selection(s)" % want_n, len(sels) == want_n, "%d selections applied: %s" % (len(sels), [canon(x)[:50] for x in sels]), key="count:" + ",".join(sorted(key)))
+        if not sels:
+            continue
+        srt = sels[-1]
+        # the argsort of the time array as it is just before sorting
+        before = fin["self._t_bmjd"]
+        tcur = None
+        for terms, leaf in A.ifexp_terms(before):
+            kk = frozenset(x for x in A.term_strings(terms) if x.lstrip("+-") in ("clean", "self._has_cov"))
+            if kk <= key or key <= kk:
+                if isinstance(leaf, ast.Subscript):
+                    tcur = leaf.value
+        oksort = isinstance(srt, ast.Call) and A.last_attr(srt) == "argsort" and isinstance(srt.func, ast.Attribute) and not srt.args and tcur is not None and canon(srt.func.value) == canon(tcur)
+        ctx.check(R, fn, label + ": last selector = argsort of the (cleaned) times", oksort,
+                  "rows are finally ordered by `%s`, not by the argsort of the time array they are applied to" % A.unparse(srt)[:80], key="sort:" + ",".join(sorted(key)))
+        if clean and len(sels) == 2:
+            m = sels[0]
+            t = A.nnf(m)
+            lits = t[1] if t[0] == "and" else [t]
+            fin_of = set()
+            positive = True
+            for l in lits:
+                if l[0] != "lit" or not l[1]:
+                    positive = False
+                    continue
+                for a_ in ARR:
+                    if "isfinite(%s)" % a_ in l[2]:
+                        fin_of.add(a_)
+            okm = positive and fin_of == set(ARR) and t[0] == "and"
+            ctx.check(R, fn, label + ": mask = isfinite(t) & isfinite(rv) & isfinite(rv_err)", okm,
+                      "mask `%s` tests %s: observations with a non-finite %s survive cleaning (or the tests are not joined by &)" % (A.unparse(m)[:90], sorted(fin_of), sorted(set(ARR) - fin_of)), key="mask:" + ",".join(sorted(key)))
+    ctx.floor(R, n, 4)
+    # cleaning is conditional on `clean` only, sorting is unconditional: follows from the case split (a case without the sort fails "count")
     # __getitem__
     gi = ctx.prog.func(DT, "RVData.__getitem__", R)
-    calls = [c for c in A.calls_in(gi) if canon(c.func) == "self.__class__"]
-    n = 0
-    for c in calls:
-        pol = _cov_pol(c)
-        for kw, attr in (("t", "self.t"), ("rv", "self.rv"), ("rv_err", "self.rv_err")):
-            v = A.get_arg(c, None, kw)
-            n += 1
-            if v is None:
-                ctx.violate(R, c, "__getitem__ passes %s" % kw, "argument missing", key="getitem:%s:%s" % (kw, pol))
-                continue
-            vs = A.strip_casts(v)
-            if kw == "rv_err" and pol is True:
-                ok = (isinstance(vs, ast.Subscript) and isinstance(vs.slice, ast.Tuple) and len(vs.slice.elts) == 2 and isinstance(vs.slice.elts[0], ast.Slice)
-                      and canon(vs.slice.elts[1]) == "slc" and isinstance(vs.value, ast.Subscript) and canon(vs.value.slice) == "slc" and dotted(vs.value.value) == attr)
-                okix = isinstance(vs, ast.Subscript) and isinstance(vs.slice, ast.Call) and (A.call_name(vs.slice) or "").endswith("ix_")
-                ctx.check(R, c, "covariance indexed on rows then columns", ok or okix,
-                          "covariance selected as `%s`: a mask or index array then pairs row i with column i (the diagonal) instead of the sub-matrix" % A.unparse(v)[:60], key="getitem:cov")
-            else:
-                ok = isinstance(vs, ast.Subscript) and canon(vs.slice) == "slc" and dotted(vs.value) == attr
-                ctx.check(R, c, "__getitem__ selects %s with the same index" % kw, ok, "%s=%s" % (kw, A.unparse(v)[:60]), key="getitem:%s:%s" % (kw, pol))
-    ctx.check(R, gi, "__getitem__ covers both error kinds", len(calls) == 2, "found %d constructor calls" % len(calls), key="getitem:branches", nontrivial=False)
+    gflow = A.Flow(gi)
+    m = 0
+    for kind, pc, v, node in A.terminal_events(gi, gflow):
+        if kind != "return" or not (isinstance(v, ast.Call) and canon(v.func) == "self.__class__"):
+            continue
+        lits = A.term_strings(pc)
+        for terms, call in [(pc, v)]:
+            for kw, attr in (("t", "self.t"), ("rv", "self.rv"), ("rv_err", "self.rv_err")):
+                a_ = A.get_arg(call, None, kw)
+                if a_ is None:
+                    ctx.violate(R, node, "__getitem__ passes %s" % kw, "argument missing", key="getitem:%s" % kw)
+                    continue
+                for t2, leaf in A.ifexp_terms(a_):
+                    l2 = lits | A.term_strings(t2)
+                    cov = "+self._has_cov" in l2
+                    nocov = "-self._has_cov" in l2
+                    base, sels = _chain(A.strip_casts(leaf))
+                    kinds = [(_sel_kind(x)[0], canon(_sel_kind(x)[1])) for x in sels]
+                    m += 1
+                    if kw == "rv_err" and cov:
+                        ok = base == attr and kinds == [("row", "slc"), ("col", "slc")]
+                        ctx.check(R, node, "__getitem__ (covariance): rows then columns selected by the index", ok,
+                                  "covariance selected as `%s`: a mask or index array then pairs row i with column i (the diagonal) instead of the sub-matrix" % A.unparse(leaf)[:60], key="getitem:cov")
+                    elif kw == "rv_err" and not nocov and not cov:
+                        ctx.undecided(R, node, "__getitem__ rv_err", "cannot tell which error kind this return serves")
+                    else:
+                        ok = base == attr and kinds == [("row", "slc")]
+                        ctx.check(R, node, "__getitem__ selects %s with the index" % kw, ok, "%s=%s" % (kw, A.unparse(leaf)[:60]), key="getitem:%s:%s" % (kw, "cov" if cov else "diag" if nocov else "any"))
+    ctx.check(R, gi, "__getitem__ returns a new object for both error kinds", m >= 4, "only %d selected arguments found" % m, key="getitem:branches", nontrivial=False)
+
+
+def _returns_by_cov(ctx, fn):
+    """[(has_cov True|False|None, leaf expr, node)] for the return events of a property, split on self._has_cov"""
+    flow = A.Flow(fn)
+    out = []
+    for kind, pc, v, node in A.terminal_events(fn, flow):
+        if kind != "return" or v is None:
+            continue
+        lits = A.term_strings(pc)
+        cov = True if "+self._has_cov" in lits else False if "-self._has_cov" in lits else None
+        out.append((cov, v, node))
+    return out
 
 
 def check_ivar(ctx):
     R = "C15-IVAR"
-    ctx.rule(R, "ivar = 1/rv_err**2 (diagonal) or inv(cov)/unit; cov = diag(rv_err**2) with squared unit, or the stored matrix; t = Time(_t_bmjd, tcb, mjd); "
-                "Time inputs are stored as .tcb.mjd; velocities and errors are stored without unit change.")
+    ctx.rule(R, "ivar = 1/rv_err**2 (diagonal) or inv(cov)/unit; cov = diag(rv_err**2) with squared unit, or the stored matrix (decided per path condition on _has_cov, "
+                "temporaries inlined); t = Time(_t_bmjd, tcb, mjd); Time inputs are stored as .tcb.mjd; velocities and errors are stored without unit change.")
     iv = ctx.prog.func(DT, "RVData.ivar", R)
-    for v, s in A.Flow(iv).returns:
-        pol = _cov_pol(s)
-        if pol is True:
-            ok = canon(s.value) == canon(parse("np.linalg.inv(self.rv_err.value) / self.rv_err.unit"))
-            ctx.check(R, s, "ivar (covariance) = inv(cov) / unit", ok, "returns `%s`" % A.unparse(s.value), key="ivar-cov")
+    seen = set()
+    for cov, v, node in _returns_by_cov(ctx, iv):
+        seen.add(cov)
+        if cov is True:
+            ok = canon(v) == canon(parse("np.linalg.inv(self.rv_err.value) / self.rv_err.unit"))
+            ctx.check(R, node, "ivar (covariance) = inv(cov) / unit", ok, "returns `%s`" % A.unparse(v)[:80], key="ivar-cov")
+        elif cov is False:
+            ctx.check(R, node, "ivar (diagonal) = 1 / rv_err**2", equal(v, parse("1 / self.rv_err**2")), "returns `%s`" % A.unparse(v)[:80], key="ivar-diag")
         else:
-            ok = equal(s.value, parse("1 / self.rv_err**2"))
-            ctx.check(R, s, "ivar (diagonal) = 1 / rv_err**2", ok, "returns `%s`" % A.unparse(s.value), key="ivar-diag")
+            ctx.undecided(R, node, "ivar return", "return not conditioned on _has_cov")
+    ctx.check(R, iv, "ivar defined for both error kinds", seen == {True, False}, "cases: %s" % seen, key="ivar-cases", nontrivial=False)
     cv = ctx.prog.func(DT, "RVData.cov", R)
-    for v, s in A.Flow(cv).returns:
-        pol = _cov_pol(s)
-        if pol is True:
-            ctx.check(R, s, "cov (covariance) = stored matrix", canon(s.value) == "self.rv_err", "returns `%s`" % A.unparse(s.value), key="cov-cov")
-        else:
-            ok = canon(s.value) in (canon(parse("np.diag(self.rv_err.value**2) * self.rv_err.unit**2")), canon(parse("np.diag(self.rv_err**2)")))
-            ctx.check(R, s, "cov (diagonal) = diag(rv_err**2)", ok, "returns `%s`" % A.unparse(s.value), key="cov-diag")
+    seen = set()
+    for cov, v, node in _returns_by_cov(ctx, cv):
+        seen.add(cov)
+        if cov is True:
+            ctx.check(R, node, "cov (covariance) = stored matrix", canon(v) == "self.rv_err", "returns `%s`" % A.unparse(v)[:80], key="cov-cov")
+        elif cov is False:
+            ok = canon(v) in (canon(parse("np.diag(self.rv_err.value**2) * self.rv_err.unit**2")), canon(parse("np.diag(self.rv_err**2)")))
+            ctx.check(R, node, "cov (diagonal) = diag(rv_err**2)", ok, "returns `%s`" % A.unparse(v)[:80], key="cov-diag")
+    ctx.check(R, cv, "cov defined for both error kinds", seen == {True, False}, "cases: %s" % seen, key="cov-cases", nontrivial=False)
     tp = ctx.prog.func(DT, "RVData.t", R)
-    rets = [s for s in A.walk_local(tp) if isinstance(s, ast.Return)]
-    ok = len(rets) == 1 and isinstance(rets[0].value, ast.Call) and A.call_name(rets[0].value) == "Time" and canon(rets[0].value.args[0]) == "self._t_bmjd" \
-        and A.str_const(A.get_arg(rets[0].value, None, "scale")) == "tcb" and A.str_const(A.get_arg(rets[0].value, None, "format")) == "mjd"
-    ctx.check(R, tp, "t = Time(_t_bmjd, scale='tcb', format='mjd')", ok, "returns `%s`" % (A.unparse(rets[0].value) if rets else None), key="t")
+    fl = A.Flow(tp)
+    ok = False
+    if len(fl.returns) == 1:
+        v = fl.returns[0][0]
+        ok = isinstance(v, ast.Call) and A.call_name(v) == "Time" and canon(A.get_arg(v, 0, "val")) == "self._t_bmjd" \
+            and A.str_const(A.get_arg(v, None, "scale")) == "tcb" and A.str_const(A.get_arg(v, None, "format")) == "mjd"
+    ctx.check(R, tp, "t = Time(_t_bmjd, scale='tcb', format='mjd')", ok, "returns `%s`" % (A.unparse(fl.returns[0][0]) if fl.returns else None), key="t")
     init = ctx.prog.func(DT, "RVData.__init__", R)
-    flow = A.Flow(init)
-    first = {}
-    for s in init.body:
-        if isinstance(s, ast.Assign) and dotted(s.targets[0]) in ARR and dotted(s.targets[0]) not in first:
-            first[dotted(s.targets[0])] = flow.resolve(s.value, at=s)
-    okt = "self._t_bmjd" in first and {canon(x) for x in A.strip_ifexp(first["self._t_bmjd"])} == {canon(parse("t.tcb.mjd")), canon(parse("np.atleast_1d(t)"))}
-    ctx.check(R, init, "times stored as BMJD numbers (Time -> .tcb.mjd, arrays as given)", okt, "initial _t_bmjd = %s" % (A.unparse(first.get("self._t_bmjd"))[:70] if "self._t_bmjd" in first else None), key="t-in")
+    k = _first_application(init) or len(init.body)
+    flow = A.Flow(init, track_self=True, body=init.body[:k])
+    first = flow.final_env
+    tv = first.get("self._t_bmjd")
+    okt = tv is not None and {canon(x) for x in A.strip_ifexp(tv)} == {canon(parse("t.tcb.mjd")), canon(parse("np.atleast_1d(t)"))}
+    ctx.check(R, init, "times stored as BMJD numbers (Time -> .tcb.mjd, arrays as given)", okt, "initial _t_bmjd = %s" % (A.unparse(tv)[:70] if tv is not None else None), key="t-in")
     okr = canon(first.get("self.rv")) == canon(parse("u.Quantity(np.atleast_1d(rv))")) and canon(first.get("self.rv_err")) == canon(parse("u.Quantity(np.atleast_1d(rv_err))"))
     ctx.check(R, init, "velocities / errors stored in the units supplied", okr, "rv = %s, rv_err = %s" % (canon(first.get("self.rv")), canon(first.get("self.rv_err"))), key="rv-in")
-    # shape guards
-    raises = [s for s in A.walk_local(init) if isinstance(s, ast.If) and A.always_raises(s.body)]
-    shp = [s for s in raises if "shape" in A.unparse(s.test)]
-    ctx.check(R, init, "shape mismatches raise", len(shp) >= 2, "found %d shape guards" % len(shp), key="shape", nontrivial=False)
+    g1 = A.find_raising_guard(init, A.nnf_of_src("self.rv_err.shape != (self.rv.size, self.rv.size) and self.rv_err.shape != (self.rv.size,)"))
+    g2 = A.find_raising_guard(init, A.nnf_of_src("self._t_bmjd.shape != self.rv.shape"))
+    ctx.check(R, init, "shape mismatches raise", g1 is not None and g2 is not None, "shape guards found: errors=%s times=%s" % (g1 is not None, g2 is not None), key="shape", nontrivial=False)
 
 
 def check_tref(ctx):
     R = "C15-TREF"
-    ctx.rule(R, "the default reference epoch is the minimum of the object's own (cleaned, sorted) times, computed after selection; a given t_ref is stored unchanged and "
-                "its TCB MJD cached; t_ref=False disables it.")
+    ctx.rule(R, "the default reference epoch is the minimum of the object's own (cleaned, sorted) times, taken when the arrays have reached their final state; a given t_ref "
+                "is stored unchanged and its TCB MJD cached; t_ref=False disables it; phase = ((t - t_ref)/P) mod 1.")
     init = ctx.prog.func(DT, "RVData.__init__", R)
-    apps = _applications(init)
-    last_app = max((a[0].lineno for a in apps), default=0)
+    k = _first_application(init)
+    flow = A.Flow(init, track_self=True, body=init.body[k:] if k is not None else None)
+    fin = flow.final_env.get("self._t_bmjd")
     defs = [s for s in A.walk_local(init) if isinstance(s, ast.Assign) and canon(s.targets[0]) == "t_ref"]
     ok = False
     why = "no default for t_ref"
     for s in defs:
-        g = [(canon(t), pol) for t, pol in A.guards_of(s)]
-        if (canon(parse("t_ref is None")), True) in g:
+        pc = A.term_strings(A.path_condition(s, init))
+        if "+t_ref is None" in pc:
             v = s.value
             names = {n.id for n in ast.walk(v) if isinstance(n, ast.Name)} - {"self", "np", "Time", "u"}
             from_self = canon(v) in (canon(parse("self.t.min()")), canon(parse("self.t[0]")), canon(parse("Time(self._t_bmjd.min(), scale='tcb', format='mjd')")),
-                                     canon(parse("Time(self._t_bmjd[0], scale='tcb', format='mjd')")), canon(parse("Time(np.min(self._t_bmjd), scale='tcb', format='mjd')")))
-            ok = from_self and s.lineno > last_app
+                                     canon(parse("Time(self._t_bmjd[0], scale='tcb', format='mjd')")))
+            at = flow.env_at.get(s, {}).get("self._t_bmjd")
+            settled = fin is not None and at is not None and canon(at) == canon(fin)
+            ok = from_self and settled
             why = "default t_ref = `%s`%s" % (A.unparse(v)[:60], " reads the raw input (%s), which still contains the dropped observations" % sorted(names) if names else
-                                               (" is computed before the rows are selected" if s.lineno <= last_app else ": not the earliest stored time"))
+                                               (" is computed before the rows have been selected and sorted" if not settled else ": not the earliest stored time"))
     ctx.check(R, init, "default t_ref = earliest stored time", ok, why, key="default")
     st = [s for s in A.walk_local(init) if isinstance(s, ast.Assign) and dotted(s.targets[0]) == "self.t_ref" and not (isinstance(s.value, ast.Constant))]
     ctx.check(R, init, "t_ref stored unchanged", len(st) == 1 and canon(st[0].value) == "t_ref", "self.t_ref = %s" % (A.unparse(st[0].value) if st else None), key="store")
@@ -199,31 +288,47 @@ def check_tref(ctx):
     vals = sorted(canon(s.value) for s in bm)
     ctx.check(R, init, "_t_ref_bmjd = t_ref.tcb.mjd (0 when disabled)", vals == sorted([canon(parse("self.t_ref.tcb.mjd")), canon(parse("0.0"))]) or vals == sorted([canon(parse("t_ref.tcb.mjd")), canon(parse("0.0"))]),
               "_t_ref_bmjd takes %s" % vals, key="bmjd")
+    none_ = [s for s in bm if A.const_value(s.value) in (0, 0.0)]
+    okf = bool(none_) and "+t_ref is False" in A.term_strings(A.path_condition(none_[0], init))
+    ctx.check(R, init, "t_ref=False disables the reference epoch", okf, "the zero epoch is not tied to `t_ref is False`", key="false", nontrivial=False)
     ph = ctx.prog.func(DT, "RVData.phase", R)
-    rets = [s for s in A.walk_local(ph) if isinstance(s, ast.Return)]
-    okp = len(rets) == 1 and canon(rets[0].value) == canon(parse("((self.t - t_ref) / P) % 1.0"))
-    ctx.check(R, ph, "phase = ((t - t_ref)/P) mod 1", okp, "returns `%s`" % (A.unparse(rets[0].value) if rets else None), key="phase")
+    fl = A.Flow(ph)
+    okp = bool(fl.returns)
+    why = "no return"
+    for v, s in fl.returns:
+        for terms, leaf in A.ifexp_terms(v):
+            lits = A.term_strings(terms)
+            want = "((self.t - self.t_ref) / P) % 1.0" if "+t_ref is None" in lits else "((self.t - t_ref) / P) % 1.0"
+            if canon(leaf) != canon(parse(want)):
+                okp = False
+                why = "returns `%s`" % A.unparse(leaf)[:80]
+    ctx.check(R, ph, "phase = ((t - t_ref)/P) mod 1", okp, why, key="phase")
 
 
 def check_copy(ctx):
     R = "C15-COPY"
-    ctx.rule(R, "__copy__ forwards every piece of constructor state (t, rv, rv_err, t_ref; a disabled t_ref stays disabled); copy() is __copy__.")
+    ctx.rule(R, "__copy__ forwards every piece of constructor state (t, rv, rv_err, t_ref; a disabled t_ref stays disabled); copy() is __copy__ (arguments resolved through temporaries).")
     fn = ctx.prog.func(DT, "RVData.__copy__", R)
-    calls = [c for c in A.calls_in(fn) if canon(c.func) == "self.__class__"]
+    flow = A.Flow(fn)
+    calls = [v for v, s in flow.returns if isinstance(v, ast.Call) and canon(v.func) == "self.__class__"]
     if len(calls) != 1:
-        ctx.undecided(R, fn, "constructor call", "expected one self.__class__(...) call")
+        ctx.undecided(R, fn, "constructor call", "expected one `return self.__class__(...)`")
         return
     c = calls[0]
     for kw, attr in (("t", "self.t"), ("rv", "self.rv"), ("rv_err", "self.rv_err")):
         v = A.get_arg(c, None, kw)
         ok = v is not None and dotted(A.strip_casts(v)) == attr
-        ctx.check(R, c, "copy forwards %s" % kw, ok, "%s=%s" % (kw, A.unparse(v) if v is not None else "missing"), key="copy:" + kw)
+        ctx.check(R, fn, "copy forwards %s" % kw, ok, "%s=%s" % (kw, A.unparse(v)[:50] if v is not None else "missing"), key="copy:" + kw)
     v = A.get_arg(c, None, "t_ref")
-    ok = v is not None and "self.t_ref" in {canon(x) for x in A.strip_ifexp(v)}
-    ctx.check(R, c, "copy forwards t_ref", ok, "t_ref=%s: the copy silently takes the earliest time as its reference epoch" % (A.unparse(v) if v is not None else "missing"), key="copy:t_ref")
-    if ok and isinstance(v, ast.IfExp):
-        okf = A.const_value(v.body) is False and canon(v.test) == canon(parse("self.t_ref is None"))
-        ctx.check(R, c, "a disabled reference epoch stays disabled", okf, "t_ref=%s" % A.unparse(v), key="copy:disabled")
+    leaves = {}
+    if v is not None:
+        for terms, leaf in A.ifexp_terms(v):
+            leaves[frozenset(A.term_strings(terms))] = leaf
+    has = any(canon(l) == "self.t_ref" for l in leaves.values())
+    ctx.check(R, fn, "copy forwards t_ref", has, "t_ref=%s: the copy silently takes the earliest time as its reference epoch" % (A.unparse(v)[:50] if v is not None else "missing"), key="copy:t_ref")
+    if has and len(leaves) > 1:
+        okf = all((A.const_value(l) is False) == ("+self.t_ref is None" in k) for k, l in leaves.items())
+        ctx.check(R, fn, "a disabled reference epoch stays disabled", okf, "t_ref=%s" % A.unparse(v)[:60], key="copy:disabled")
     cp = ctx.prog.func(DT, "RVData.copy", R)
     rets = [s for s in A.walk_local(cp) if isinstance(s, ast.Return)]
     ctx.check(R, cp, "copy() delegates to __copy__", len(rets) == 1 and canon(rets[0].value) == canon(parse("self.__copy__()")), "copy() returns `%s`" % (A.unparse(rets[0].value) if rets else None), key="copy()", nontrivial=False)
